@@ -205,7 +205,7 @@ def read_registry(path="/repo/pint/default_en.txt"):
         parts = [p.strip() for p in ln.split("=")]
         name = parts[0]
         if name.startswith("["):
-            R["dims"][name] = parse_expr(parts[1]).units
+            R["dims"][name] = {k: v for k, v in parse_expr(parts[1]).units.items() if k != "[]"}
             continue
         if name.endswith("-"):
             val = parse_expr(parts[1])
